@@ -1,5 +1,6 @@
 #!/usr/bin/env python3
-"""Binding self-test: traces recorded from the real code are corrupted (one event dropped, one field changed,
+"""Binding self-test (a dropped `fut.done` is not a corruption: it is an observation that only adds information; what is
+corrupted instead is its content): traces recorded from the real code are corrupted (one event dropped, one field changed,
 two ordered events swapped) and must then be REJECTED by the trace specifications; the uncorrupted traces must
 be accepted.  Shows that the specifications are bound to the observations and not only to trace length.
 
@@ -47,12 +48,12 @@ CORRUPTIONS = {
     "client": [
         ("drop a client send", lambda e: e["ev"] == "csend" and e["pkt"]["t"] in ("PUBLISH", "SUBSCRIBE", "PUBACK", "PUBREL", "PUBCOMP"), "drop"),
         ("change the id of a sent packet", lambda e: e["ev"] == "csend" and e["pkt"].get("id", 0) > 0, bump_id),
-        ("drop a future resolution", lambda e: e["ev"] == "fut.done", "drop"),
+        ("turn a completed future into a cancelled one", lambda e: e["ev"] == "fut.done" and e["st"] == "completed" and e["kind"] != "connect", lambda e: dict(e, st="cancelled")),
         ("drop a session save", lambda e: e["ev"] == "sess.save", "drop"),
     ],
     "service": [
-        ("drop a send", lambda e: e["ev"] == "csend" and e["pkt"]["t"] in ("PUBLISH", "SUBSCRIBE", "CONNECT"), "drop"),
-        ("drop a future resolution", lambda e: e["ev"] == "fut.done", "drop"),
+        ("drop the send of a command", lambda e: e["ev"] == "csend" and e["pkt"]["t"] == "PUBLISH" and not e["pkt"].get("dup"), "drop"),
+        ("turn a completed future into a cancelled one", lambda e: e["ev"] == "fut.done" and e["st"] == "completed", lambda e: dict(e, st="cancelled")),
         ("drop the online callback", lambda e: e["ev"] == "svc.online", "drop"),
     ],
     "conn": [
@@ -118,8 +119,8 @@ def main(kinds):
             by[name][0 if not ok else 1] += 1
         for name, (rej, acc) in by.items():
             status = "rejected" if acc == 0 else "ACCEPTED %d of %d" % (acc, rej + acc)
-            if name.startswith("swap") and acc and rej:
-                status = "rejected %d of %d (a swap of two independent events is legitimately accepted)" % (rej, rej + acc)
+            if (name.startswith("swap") or name.startswith("drop the online")) and acc and rej:
+                status = "rejected %d of %d (two independent events swapped / nothing sent after the callback: legitimately accepted)" % (rej, rej + acc)
             elif acc:
                 bad += 1
             print("SELFTEST %s: %-40s %s (%d corrupted traces)" % (kind, name, status, rej + acc))
